@@ -75,6 +75,8 @@ def main():
                 c = min(c, reflen)
                 sample = rng.choice(['cellA', 'cellB'])
                 pos = min(max(0, c - 2), reflen - 4)
+                if rng.random() < 0.4:      # the bin-tag value is independent of where the read aligns
+                    pos = rng.randint(0, max(0, reflen - 4))
                 paired = rng.random() < 0.3
                 tags = {'SM': sample, bintag: c} if rng.random() < 0.9 else {'SM': sample}
                 ft = rng.choice(['a', 'b'])
